@@ -86,7 +86,8 @@ FULL clause, reading the parenthesis as an identity ("the minter admin IS the co
     theorem C05_clause_minter_admin (s) (c) (k ≠ .base) (m ∈ minterAdminMsgs) (hc : c.addr ≠ s.creator) :
         step s (.exec c (.minter k) m a w) = none
 
-The unchanged code does NOT satisfy that: `Config.extension.admin` is written once, at creation (where it equals the
+That reading is NOT proved (recorded as an observation — DESIGN 13.3 —, not a finding: the parenthesis holds at creation, which
+is what the property is taken to state): `Config.extension.admin` is written once, at creation (where it equals the
 creator), and no message updates it; `update_collection_info{creator}` moves the collection creator only.  After such a
 hand-over the OLD creator keeps every configuration / airdrop / burn-remaining right and the NEW creator has none
 (`C05_clause_minter_admin_counterexample`, replayed on the real contracts: corpus/C05/minter-admin-not-creator.json).
@@ -360,18 +361,35 @@ theorem Priv.step'_frame (s : AuthState) (op : Op) (h : op.isSudo = false) :
         ⟨_, _, _, rfl⟩ | ⟨_, _, _, rfl⟩ | ⟨_, _, _, rfl⟩ | ⟨_, _, rfl⟩ | ⟨_, _, rfl⟩ | ⟨_, _, rfl⟩ <;>
       exact ⟨rfl, rfl, rfl, rfl⟩
 
-/-- "Factory parameters and minter status change only through governance (sudo), never through a user message":
-no `execute` (by anyone, of any message kind, on any contract, with any arguments, whatever its outcome) and no
-`instantiate` changes them. -/
-theorem C05_sudo_only (s : AuthState) (c : Caller) (k : Kind) (m : MsgKind) (a : Args) (w : Bool) :
+/-- "Factory parameters and minter status change only through governance (sudo), never through a user message" —
+PARTIAL.  Proved: no `execute` (by anyone, of any message kind, on any contract, with any arguments, whatever its outcome)
+and no `instantiate` changes them.
+
+What is missing: `LP.Priv.Op` has NO migrate operation (tick / exec / inst / sudo only).  All four factories'
+`migrate(Option<UpdateParamsMsg>)` apply the same `update_params` as sudo `UpdateParams` and save `SUDO_PARAMS`; the entry
+point is reachable through `MsgMigrateContract` by the factory's wasm admin.  Whether that admin is governance is a
+deployment fact, not checked here (migrate entry points are C20's subject).  So the full clause "…ONLY through governance"
+is proved for histories of execute / instantiate / tick, not for histories containing a migrate.
+
+This is a FRAME fact of the model (`effect` has no branch writing `params` / `status`): that no execute handler of the code
+writes params / status is checked only by the monitors `execute-changed-params|status`. -/
+theorem C05_sudo_only_partial (s : AuthState) (c : Caller) (k : Kind) (m : MsgKind) (a : Args) (w : Bool) :
     (step' s (.exec c k m a w)).params = s.params ∧ (step' s (.exec c k m a w)).status = s.status ∧
     (step' s (.inst c k w)).params = s.params ∧ (step' s (.inst c k w)).status = s.status := by
   have h1 := Priv.step'_frame s (.exec c k m a w) rfl
   have h2 := Priv.step'_frame s (.inst c k w) rfl
   exact ⟨h1.1, h1.2.1, h2.1, h2.2.1⟩
 
-/-- the same over every history without a sudo op -/
-theorem C05_sudo_only_run (s : AuthState) (ops : List Op) (h : ∀ op ∈ ops, op.isSudo = false) :
+/-- alias of `C05_sudo_only_partial` (kept because other modules refer to it) -/
+theorem C05_sudo_only (s : AuthState) (c : Caller) (k : Kind) (m : MsgKind) (a : Args) (w : Bool) :
+    (step' s (.exec c k m a w)).params = s.params ∧ (step' s (.exec c k m a w)).status = s.status ∧
+    (step' s (.inst c k w)).params = s.params ∧ (step' s (.inst c k w)).status = s.status :=
+  C05_sudo_only_partial s c k m a w
+
+/-- the same over every history without a sudo op — PARTIAL in the same sense: histories are lists of
+tick / execute / instantiate (/ sudo, excluded by `h`); `MsgMigrateContract` of a factory by its wasm admin is not an
+operation of the model and is NOT covered. -/
+theorem C05_sudo_only_run_partial (s : AuthState) (ops : List Op) (h : ∀ op ∈ ops, op.isSudo = false) :
     (run s ops).params = s.params ∧ (run s ops).status = s.status := by
   induction ops generalizing s with
   | nil => exact ⟨rfl, rfl⟩
@@ -380,6 +398,11 @@ theorem C05_sudo_only_run (s : AuthState) (ops : List Op) (h : ∀ op ∈ ops, o
     have h2 := ih (step' s op) (fun o ho => h o (by simp [ho]))
     simp only [run, List.foldl_cons] at h2 ⊢
     exact ⟨h2.1.trans h1.1, h2.2.trans h1.2.1⟩
+
+/-- alias of `C05_sudo_only_run_partial` (kept because other modules refer to it) -/
+theorem C05_sudo_only_run (s : AuthState) (ops : List Op) (h : ∀ op ∈ ops, op.isSudo = false) :
+    (run s ops).params = s.params ∧ (run s ops).status = s.status :=
+  C05_sudo_only_run_partial s ops h
 
 /-- the sudo messages themselves are rejected when a user sends them through `execute` -/
 theorem C05_sudo_rows :
@@ -393,7 +416,9 @@ theorem C05_sudo_msg_via_execute_rejected (s : AuthState) (c : Caller) (a : Args
   · exact C05_reject_nobody s c _ _ a w (Or.inr (C05_sudo_rows.1 f (Priv.FactoryKind.mem_all f)))
   · exact C05_reject_nobody s c _ _ a w (Or.inr (C05_sudo_rows.2 k (Priv.MinterKind.mem_all k)))
 
-/-- no message at all changes the minter's admin or the token-merge source list: over ALL histories (sudo included) -/
+/-- no message at all changes the minter's admin or the token-merge source list: over ALL histories (sudo included).
+A FRAME fact of the model (`effect` and the sudo branch have no case writing `minterAdmin` / `mergeSources`); that no handler
+of the code does is checked only by the monitor `auth-state-changed-outside-handover`. -/
 theorem C05_minter_admin_constant (s : AuthState) (ops : List Op) :
     (run s ops).minterAdmin = s.minterAdmin ∧ (run s ops).mergeSources = s.mergeSources := by
   induction ops generalizing s with
@@ -416,7 +441,9 @@ theorem C05_minter_admin_constant (s : AuthState) (ops : List Op) :
 
 /-! ## Instantiate: minters and collections only by a contract -/
 
-/-- "a minter or collection can only be instantiated by a contract, never directly by a user account" -/
+/-- "a minter or collection can only be instantiated by a contract, never directly by a user account" — a TABLE fact of
+the model: unfolds `instPrincipal` (= `contractOnly` for these kinds) and `authorised _ c contractOnly = c.isContract`; tied
+to the code by the harness only (direct instantiate of all 28 kinds, sender and `minter` field varied independently). -/
 theorem C05_instantiate_contract_only (s : AuthState) (c : Caller) (k : Kind) (w : Bool)
     (hk : (∃ m, k = .minter m) ∨ (∃ cl, k = .collection cl)) (hc : c.isContract = false) :
     step s (.inst c k w) = none ∧ step' s (.inst c k w) = s := by
@@ -756,7 +783,8 @@ theorem C05_clause_minter_admin_counterexample :
 /-! ## Default-deny: a message kind the table does not list is reserved -/
 
 /-- `MsgKind.other` (any `ExecuteMsg` variant found in the repo's schema that is not a row of the table) is never public:
-it belongs to the contract's configuration principal, or to nobody (factories, the immutable whitelist) -/
+it belongs to the contract's configuration principal, or to nobody (factories, the immutable whitelist). A `decide` TABLE fact
+about the model's `principal`, like the `C05_table_*` theorems; tied to the code by the harness only. -/
 theorem C05_default_deny :
     (∀ k ∈ Kind.all, principal k other ≠ anyone) ∧
     (∀ k ∈ MinterKind.all, principal (.minter k) other = (if k = .base then creator else minterAdmin)) ∧
